@@ -131,7 +131,7 @@ class Run:
             w = rec['w']
             r = lib.call_with_deadline(w.wait, 300.0, timeout=10)
             if r[0] == 'hung':
-                self.viol('parents-informed', f'wait-blocks-after-server-stop:{rec["state"]}', s.blocked_report()[:5])
+                self.viol('parents-informed', f'wait-blocks-after-server-stop:{rec["state"]}', s.blocked_report()[:16])
                 continue
             if r[0] != 'ok' or r[1] is not True:
                 self.viol('parents-informed', f'worker-not-dead-after-server-stop:{rec["state"]}:{r[0]}:{lib.safe_repr(r[1])}', None)
